@@ -84,7 +84,7 @@ def c17_operand(g, cfg, idx):
     n, dt = cfg["n"], cfg["dtype"]
     seed = g.randrange(1 << 30)
     kind = g.choice(["psd", "psd", "sym", "gen", "diag", "kron", "sum", "tridiag", "scaled", "blockdiag", "generic",
-                     "ata", "sliced", "transpose", "kronsum", "identity", "sumgen"])
+                     "ata", "sliced", "transpose", "kronsum", "identity", "sumgen", "singular"])
     real = dt in ("f4", "f8")
     fl = {"n": n, "dtype": dt, "psd": False, "sym": False, "real": real}
     if kind == "psd":
@@ -119,6 +119,9 @@ def c17_operand(g, cfg, idx):
         r = {"k": "smul", "c": g.choice([2.0, 0.5, 3.0]),
              "of": {"k": "ann", "name": "PSD", "of": {"k": "dense", "n": n, "dtype": dt, "seed": seed, "sym": "psd"}}}
         fl.update(psd=True, sym=True, annotated=True)
+    elif kind == "singular":  # degenerate input: rank-deficient Gram matrix
+        r = {"k": "dense", "n": n, "dtype": dt, "seed": seed, "sym": "psd_singular"}
+        fl.update(psd=True, sym=True)
     elif kind == "ata":  # Product pattern A^T A (inferred PSD)
         inner = {"k": "dense", "n": n, "dtype": dt, "seed": seed, "sym": "gen"}
         r = {"k": "product", "args": [{"k": "H", "of": inner}, inner]}
@@ -465,42 +468,71 @@ def path_kinds(n=4):
     }
 
 
-PATH_ROUTINES = [
-    ("diag_hutch", "Hutch", {"tol": 0.2, "max_iters": 2}, {"k": 0}),
-    ("diag_hutch", "Hutch", {"tol": 0.2, "max_iters": 2, "rand": "rademacher"}, {"k": -1}),
-    ("trace_hutch", "Hutch", {"tol": 0.2, "max_iters": 2}, {}),
-    ("diag_auto", "Auto", {"tol": 0.2, "max_iters": 2}, {"k": 0}),
-    ("trace_auto", "Auto", {"tol": 0.2, "max_iters": 2}, {}),
-    ("eig_power", "PowerIteration", {"max_iter": 3}, {}),
-    ("eig_auto1", "Auto", {"max_iter": 3}, {}),
-    ("eig_lanczos", "Lanczos", {"max_iters": 3}, {"k": 1, "which": "LM"}),
-    ("eig_arnoldi", "Arnoldi", {"max_iters": 3}, {"k": 1, "which": "LM"}),
-]
+# alg class -> (keyword arguments of the object, canonical randomised routine R0, entry points that accept the object)
+#   entry point = (call name, name of the argument that receives the object, further args, is_randomised)
+PATH_CLASSES = {
+    "Hutch": ({"tol": 0.2, "max_iters": 2}, ("trace_hutch", "alg", {}), [
+        ("diag_hutch", "alg", {"k": 0}, True), ("diag_hutch", "alg", {"k": -1}, True), ("trace_hutch", "alg", {}, True),
+        ("logdet_lh", "halg", {"lkw": {"max_iters": 3, "key": 1}}, True),
+        ("slogdet_lh", "halg", {"lkw": {"max_iters": 3, "key": 1}}, True),
+        ("slogdet_ah", "halg", {"akw": {"max_iters": 3, "key": 1}}, True)]),
+    "HutchRademacher": ({"tol": 0.2, "max_iters": 2, "rand": "rademacher"}, ("trace_hutch", "alg", {}), [
+        ("diag_hutch", "alg", {"k": 1}, True), ("trace_hutch", "alg", {}, True)]),
+    "Auto": ({"tol": 0.2}, ("trace_auto", "alg", {}), [
+        ("diag_auto", "alg", {"k": 0}, True), ("trace_auto", "alg", {}, True), ("eig_auto1", "alg", {}, True),
+        ("eigmax", "alg", {}, True),
+        ("inv", "alg", {}, False), ("logdet", "alg", {}, False), ("unary", "alg", {"f": "sqrt"}, False),
+        ("eig", "alg", {"k": 1, "which": "LM"}, False), ("svd", "alg", {"k": 1, "which": "LM"}, False)]),
+    "Lanczos": ({"max_iters": 3}, ("eig_lanczos", "alg", {"k": 1, "which": "LM"}), [
+        ("eig_lanczos", "alg", {"k": 1, "which": "LM"}, True), ("svd_lanczos", "alg", {"k": 1, "which": "LM"}, True),
+        ("alg_call", "alg", {}, True), ("logdet_lh", "lalg", {"hkw": {"tol": 0.5, "max_iters": 1, "key": 2}}, True),
+        ("unary", "alg", {"f": "sqrt"}, False), ("unary", "alg", {"f": "exp"}, False), ("unary", "alg", {"f": "log"}, False),
+        ("unary", "alg", {"f": "pow-1"}, False), ("unary", "alg", {"f": "pow0.5"}, False),
+        ("unary_apply", "alg", {"f": "isqrt", "x": {"arr": {"shape": [4], "dtype": "f8", "seed": 3}}}, False)]),
+    "Arnoldi": ({"max_iters": 3}, ("eig_arnoldi", "alg", {"k": 1, "which": "LM"}), [
+        ("eig_arnoldi", "alg", {"k": 1, "which": "LM"}, True), ("alg_call", "alg", {}, True),
+        ("slogdet_ah", "aalg", {"hkw": {"tol": 0.5, "max_iters": 1, "key": 2}}, True),
+        ("unary", "alg", {"f": "sqrt"}, False), ("unary", "alg", {"f": "exp"}, False), ("unary", "alg", {"f": "pow-1"}, False)]),
+    "PowerIteration": ({"max_iter": 3}, ("eig_power", "alg", {}), [
+        ("eig_power", "alg", {}, True), ("alg_call", "alg", {}, True)]),
+    "LOBPCG": ({"max_iters": 2}, ("eig_lobpcg", "alg", {"k": 1, "which": "LM"}), [
+        ("eig_lobpcg", "alg", {"k": 1, "which": "LM"}, True), ("svd_lobpcg", "alg", {"k": 1, "which": "LM"}, True)]),
+}
+PATH_ROUTINES = [(c, e[0]) for c, (_, _, es) in PATH_CLASSES.items() for e in es]
+PATH_KINDS_DETERMINISTIC = ("dense", "generic", "kron", "blockdiag", "sum", "diag")
 
 
 def path_programs_c17():
+    """Exhaustive sweep: algorithm class x entry point that accepts the object x operator kind x {explicit, default key}:
+         c1 = R0(G, alg)    x = X(A_kind, alg)    repeat c1    repeat x       with ONE caller-owned algorithm object."""
     out = []
     kinds = path_kinds()
     G = {"k": "ann", "name": "PSD", "of": {"k": "generic", "n": 4, "dtype": "f8", "seed": 99, "sym": "psd"}}
-    for fn, cls, kw, extra in PATH_ROUTINES:
-        for kname, rec in sorted(kinds.items()):
-            for key in (7, None):
-                akw = dict(kw)
-                if key is not None:
-                    akw["key"] = key
-                c1 = {"op": "call", "fn": fn, "args": dict({"A": {"slot": "G"}, "alg": {"algobj": "g"}}, **extra)}
-                c2 = {"op": "call", "fn": fn, "args": dict({"A": {"slot": "AK"}, "alg": {"algobj": "g"}}, **extra)}
-                steps = [{"op": "make", "slot": "G", "recipe": G}, {"op": "make", "slot": "AK", "recipe": rec},
-                         {"op": "mkalg", "name": "g", "cls": cls, "kw": akw},
-                         {"op": "user", "act": ["reseed", 11], "slot": "s0"},
-                         dict(c1), dict(c2), {"op": "user", "act": ["draw", "randn", 2], "slot": "s0"},
-                         dict(c1, repeat_of=4), dict(c2, repeat_of=5), {"op": "user", "act": ["draw", "rand", 2], "slot": "s0"}]
-                for j, s in enumerate(steps):
-                    s["id"] = j
-                out.append({"name": "%s/%s/key=%s" % (fn, kname, key),
-                            "program": {"property": "C17", "run_seed": 0, "rng0": 3, "config": {"path": [fn, kname, key]},
-                                        "mode": "explicit", "steps": steps}})
+    for cname, (kw, r0, entries) in PATH_CLASSES.items():
+        cls = "Hutch" if cname.startswith("Hutch") else cname
+        for fn, argname, extra, randomised in entries:
+            for kname, rec in sorted(kinds.items()):
+                if not randomised and kname not in PATH_KINDS_DETERMINISTIC:
+                    continue
+                for key in (7, None):
+                    akw = dict(kw)
+                    if key is not None:
+                        akw["key"] = key
+                    c1 = {"op": "call", "fn": r0[0], "args": dict({"A": {"slot": "G"}, r0[1]: {"algobj": "g"}}, **r0[2])}
+                    x = {"op": "call", "fn": fn, "args": dict({"A": {"slot": "AK"}, argname: {"algobj": "g"}}, **extra)}
+                    steps = [{"op": "make", "slot": "G", "recipe": G}, {"op": "make", "slot": "AK", "recipe": rec},
+                             {"op": "mkalg", "name": "g", "cls": cls, "kw": akw},
+                             {"op": "user", "act": ["reseed", 11], "slot": "s0"},
+                             dict(c1), dict(x), {"op": "user", "act": ["draw", "randn", 2], "slot": "s0"},
+                             dict(c1, repeat_of=4), dict(x, repeat_of=5), {"op": "user", "act": ["draw", "rand", 2], "slot": "s0"}]
+                    for j, s in enumerate(steps):
+                        s["id"] = j
+                    out.append({"name": "%s/%s%s/%s/key=%s" % (cname, fn, "".join("_%s" % v for v in extra.values()
+                                                                                 if isinstance(v, (str, int))), kname, key),
+                                "program": {"property": "C17", "run_seed": 0, "rng0": 3,
+                                            "config": {"path": [cname, fn, kname, key]}, "mode": "explicit", "steps": steps}})
     return out
+
 
 
 # ------------------------------------------------------------------------------------------
@@ -511,9 +543,10 @@ def large_programs_c17():
 
     def prog(name, n, fn, **kw):
         A = {"k": "ann", "name": "PSD", "of": {"k": "diag", "n": n, "dtype": "f8", "seed": 5, "pos": True}}
-        steps = [{"op": "make", "slot": "A0", "recipe": A},
-                 {"op": "call", "fn": fn, "args": dict({"A": {"slot": "A0"}}, **kw)},
-                 {"op": "user", "act": ["draw", "randn", 2], "slot": "s0"}]
+        c = {"op": "call", "fn": fn, "args": dict({"A": {"slot": "A0"}}, **kw)}
+        steps = [{"op": "make", "slot": "A0", "recipe": A}, dict(c),
+                 {"op": "user", "act": ["draw", "randn", 2], "slot": "s0"}, dict(c, repeat_of=1),
+                 {"op": "user", "act": ["draw", "rand", 2], "slot": "s0"}]
         for j, s in enumerate(steps):
             s["id"] = j
         out.append({"name": name, "program": {"property": "C17", "run_seed": 0, "rng0": 9, "config": {"large": name},
@@ -527,6 +560,14 @@ def large_programs_c17():
     prog("nystrom_n2p17_r8", 2**17, "nystrom", rank=8, key=2)
     prog("randomized_svd_n2p17_r8", 2**17, "randomized_svd", rank=8)
     prog("lobpcg_n2p18_k4", 2**18, "lobpcg", max_iters=4, key=1)
+    prog("lobpcg_n1000_k4", 1000, "lobpcg", max_iters=4, key=7)
+    prog("eig_lobpcg_n600_k3", 600, "lobpcg", max_iters=3, key=2)
+    prog("nystrom_n1000_r5", 1000, "nystrom", rank=5, key=None)
+    prog("adanys_n300", 300, "adanys", rank=3, bounds=[0.1, 0.5, 2.0])
+    prog("select_rank_n300", 300, "select_rank", rank_init=2, rank_max=8, tol=1e-3)
+    prog("slq_n300", 300, "slq", fun="log", max_iters=10, vtol=0.5, key=4)
+    prog("power_iteration_n1000", 1000, "power_iteration", max_iter=50, tol=1e-9, key=None)
+    prog("lanczos_n300_full", 300, "lanczos", max_iters=300, tol=1e-7, key=1)
     prog("hutch_n101", 101, "hutch", tol=0.5, max_iters=2, key=3, k=0)
     prog("hutch_n1000", 1000, "hutch", tol=0.5, max_iters=1, key=3, k=-3)
     return out
